@@ -279,6 +279,7 @@ def main(tier, seed, replay=None):
                     viol.append((c, f"{c['member']}@{c['placement']}: validate() rejects {json.dumps(v)} which satisfies {json.dumps(c['schema'])}", classify_incomplete(c, v)))
     # ---- an operation-level parameter overrides the path-item one, constraints included
     n_override = override_part(d, viol)
+    n_override += regex_names_part(d, viol)
     # ---- the client validates before sending
     n_methods, bad_methods = client_validates(d)
     res.oblige(f"client: the generated client ({n_methods} methods) could be read back", n_methods > 0, "; ".join(bad_methods[:1]) if n_methods == 0 else "")
@@ -313,6 +314,42 @@ def main(tier, seed, replay=None):
         res.violation("proof obligation no longer checks: " + "; ".join(o[0] for o in broken),
                       {"broken": [[o[0], o[2]] for o in broken]}, no_input=True)
     return res.finish()
+
+
+def regex_names_part(d, viol):
+    """members of different structs whose regex constants derive the same name (User.profile_name / UserProfile.name):
+    each member is validated against its OWN pattern"""
+    spec = {"openapi": "3.1.0", "info": {"title": "t", "version": "1"}, "paths": {}, "components": {"schemas": {
+        "User": {"type": "object", "properties": {"profile_name": {"type": "string", "pattern": "^[a-z][a-z0-9_]{2,31}$"}, "tag": {"type": "string", "pattern": "^[a-z]+$"}}},
+        "UserProfile": {"type": "object", "properties": {"name": {"type": "string", "pattern": "^[A-Z][A-Za-z '-]{0,63}$"}, "tag": {"type": "string", "pattern": "^[a-z]+$"}}},
+        "UserProfileName": {"type": "object", "properties": {"v": {"type": "string", "pattern": "^[0-9]+$"}}}}}}
+    base = os.path.join(d, "regex_names")
+    os.makedirs(base, exist_ok=True)
+    sp = os.path.join(base, "spec.json")
+    json.dump(spec, open(sp, "w"))
+    outp = os.path.join(base, "out.rs")
+    rc, txt = vlib.oas(["generate", "types", "-i", sp, "-o", outp, "-q", "--all-schemas", "--no-helpers"], timeout=120)
+    if rc != 0:
+        viol.append(({"regex_names": True}, f"regex constant names: generation failed {txt[-200:]}", None))
+        return 0
+    probes = [("User", {"profile_name": "ab_1"}, True), ("User", {"profile_name": "Ab C"}, False), ("UserProfile", {"name": "Ab C"}, True), ("UserProfile", {"name": "ab_1"}, False),
+              ("UserProfileName", {"v": "123"}, True), ("UserProfileName", {"v": "abc"}, False), ("User", {"tag": "abc"}, True), ("UserProfile", {"tag": "ABC"}, False)]
+    ar = Arena("c16r")
+    ar.add_case(0, outp)
+    body = "fn main() {\n" + "\n".join(
+        f'    {{ let v: case_0::{ty} = serde_json::from_str({json.dumps(json.dumps(doc))}).unwrap(); println!("{k}\t{{}}", validator::Validate::validate(&v).is_ok()); }}'
+        for k, (ty, doc, _) in enumerate(probes)) + "\n}\n"
+    ar.write_main(body)
+    ok, diags, err = ar.cargo("build")
+    if not ok:
+        viol.append(({"regex_names": True, "spec": spec}, f"regex constant names: the emitted types do not compile: {(diags[0]['message'] if diags else err)[:300]}", None))
+        return 0
+    rc, so, se = ar.run("")
+    got = dict(l.split("\t") for l in so.strip().split("\n") if "\t" in l)
+    for k, (ty, doc, want) in enumerate(probes):
+        if got.get(str(k)) != ("true" if want else "false"):
+            viol.append(({"regex_names": True, "spec": spec}, f"regex constant names: {ty} {json.dumps(doc)}: validate() says {got.get(str(k))}, the member's own pattern says {want}", None))
+    return len(probes)
 
 
 def override_part(d, viol):
